@@ -21,7 +21,7 @@ RULE = ("Hypothesis draws a strictly convex model with a manufactured optimum x*
         "report OPTIMAL, be feasible and satisfy f(x_optyx)-f* <= 10*gap_raw + 1e-6(1+|f*|) with a consistent "
         "objective_value.  Non-trivial = a constraint or bound is active at x*, or maximise, or natural order != "
         "declaration order.")
-BUDGET = {"quick": {"workers": 16, "examples": 40}, "thorough": {"workers": 16, "examples": 800}}
+BUDGET = {"quick": {"workers": 16, "examples": 80}, "thorough": {"workers": 16, "examples": 800}}
 ASSUMPTIONS = ["the outcome clause is conditional on the raw SciPy run converging; otherwise the case is inconclusive"]
 MANIFEST = {
  "technique": "property-based testing (Hypothesis): manufactured-solution convex models; differential against raw scipy.optimize.minimize on hand-written closures; callables captured at the minimize seam",
